@@ -1,0 +1,55 @@
+//go:build verif
+
+// Contracts for govc (/verif): C08 peer message parsing — what package p2p relies on from the codecs in package common. Comment-only file.
+
+package common
+
+//@ -- ASSUMED (transaction codec is C06's subject): the decoder does not write caller-visible memory and returns a transaction iff it returns no error.
+//@ assume func UnmarshalVersionedTransaction
+//@   modifies nothing
+//@   ensures [nonnil] err == nil ==> result0 != nil
+
+//@ -- ASSUMED, justified by the PROVED C07 contract of (*Decoder).DecodeSnapshotWithTopo (zz_contracts_c07_verif.go: [canonical-length] gives result0 != nil &&
+//@ -- result0.Snapshot != nil, [count] gives 1..255 transactions): UnmarshalVersionedSnapshot is `NewDecoder(b).DecodeSnapshotWithTopo()` behind a version test.
+//@ -- The two functional clauses were machine-checked against that contract (15/15 obligations) with the frame clause left out; the frame itself (the decoder
+//@ -- writes only the reader and the objects it allocates) is not provable today because DecodeSnapshotWithTopo has no `modifies` clause, hence `assume`.
+//@ assume func UnmarshalVersionedSnapshot
+//@   modifies nothing
+//@   ensures [nonnil] err == nil ==> result0 != nil && result0.Snapshot != nil
+//@   ensures [count] err == nil ==> 1 <= len(result0.Snapshot.Transactions) && len(result0.Snapshot.Transactions) <= SnapshotTransactionsMaximum
+//@   ensures [fresh] err == nil ==> fresh(result0) && fresh(result0.Snapshot)
+
+//@ -- PROVED: the minimum decoder starts at position 0 of b[4:].
+//@ func NewMinimumDecoder
+//@   property C08
+//@   modifies nothing
+//@   ensures [ok] err == nil ==> len(b) >= 4 && DecOK(result0) && Pos(result0) == 0 && Len(result0) == len(b) - 4
+//@   ensures [short] len(b) < 4 ==> err != nil
+//@   ensures [fresh] err == nil ==> fresh(result0) && fresh(result0.buf)
+
+//@ -- Encoder length layer (what marshalSyncPoints needs): every write appends exactly its width.
+//@ spec EncOK(enc *Encoder) bool = enc != nil
+
+//@ func NewMinimumEncoder
+//@   property C08
+//@   ensures [len] EncOK(result) && len(result.buf) == 4
+
+//@ -- (*Encoder).Write: contract in zz_contracts_c06_verif.go (properties C06, C08)
+
+//@ -- (*Encoder).WriteUint64: contract in zz_contracts_c06_verif.go (properties C06, C08)
+
+//@ -- (*Encoder).WriteInt: contract in zz_contracts_c06_verif.go (properties C06, C08)
+
+//@ func (enc *Encoder) Bytes
+//@   property C08
+//@   requires EncOK(enc)
+//@   modifies nothing
+//@   ensures [same] result == enc.buf
+
+//@ -- ASSUMED (snapshot/transaction encoders are C06/C07's subject): marshalling writes nothing visible. VersionedMarshal panics on an unknown version.
+//@ assume func (s *Snapshot) VersionedMarshal
+//@   requires s != nil && s.Version == SnapshotVersionCommonEncoding
+//@   modifies nothing
+//@ assume func (ver *VersionedTransaction) Marshal
+//@   requires ver != nil
+//@   modifies nothing
